@@ -90,4 +90,32 @@ def pipeLine (ts : List String) : String :=
             s!" stopped={b01 fin.stopped} crashed={b01 fin.crashed} valid={b01 allValid}")).getD "bad-op"
   | _ => "bad-op"
 
+/-- canonical rendering of the library's two watch maps (watch descriptors are compared through the pairing they
+    induce, not by number) -/
+def showMaps (lib : Lib) : String :=
+  let w := sortStr (lib.wdForPath.map (fun x => showP x.1))
+  let x := sortStr (lib.wdForPath.map (fun x => showP x.1 ++ ">" ++ ((lookupW lib.pathForWd x.2).map showP).getD "?"))
+  let p := sortStr (lib.pathForWd.map (fun x => showP x.2))
+  "W:" ++ showList w ++ "|X:" ++ showList x ++ "|P:" ++ showList p
+
+/-- `pipemaps <recursive> <full> I <n> op*n O <m> op*m` : `_wd_for_path` / `_path_for_wd` after every drained operation -/
+def pipeMapsLine (ts : List String) : String :=
+  match ts with
+  | rec :: full :: "I" :: n :: rest =>
+    (do
+      let n ← n.toNat?
+      if rest.length < n then none else
+      let initOps ← (rest.take n).mapM pipeParseOp
+      let (m, rest2) ← (match rest.drop n with | "O" :: m :: r => m.toNat?.map (fun m => (m, r)) | _ => none)
+      if rest2.length ≠ m then none else
+      let ops ← rest2.mapM pipeParseOp
+      let k0 : Kern := ⟨[], 1, 1⟩
+      let fs0 := initOps.foldl (fun fs op => (kernelOp fs k0 op).1) FS.init
+      let s0 := Sys.start fs0 (bool01 rec) (bool01 full)
+      let (_, outs) := ops.foldl (fun (acc : Sys × List String) op =>
+          let s1 := (acc.1.op op).1
+          (s1, acc.2 ++ [if s1.stopped || s1.crashed then "-" else showMaps s1.lib])) (s0, [showMaps s0.lib])
+      some (" ; ".intercalate outs)).getD "bad-op"
+  | _ => "bad-op"
+
 end WD.Driver
